@@ -11,7 +11,7 @@ import sys
 
 from ..clock import TimeShim, VirtualClock
 from ..harness import HarnessError, Result
-from ..sched import Abort, Scheduler, ShimThreading
+from ..sched import Abort, NotSimulated, Scheduler, ShimThreading
 from ..seed import Rng
 from ..streams import EventLog, SimOutputStream
 from ..term import Screen, UnknownSequence
@@ -78,7 +78,7 @@ def _body(w, allow_raise=True):
         else:
             steps.append(["msg", w.pick(MESSAGES)])
     if allow_raise and w.chance(0.3):
-        steps.insert(w.randint(0, len(steps)), ["raise", w.pick(["Exception", "Exception", "KeyboardInterrupt"])])
+        steps.insert(w.randint(0, len(steps)), ["raise", w.pick(["Exception", "Exception", "KeyboardInterrupt", "SystemExit"])])
     return steps
 
 
@@ -223,9 +223,13 @@ def execute(sc):
             _auto(sc, res, clock, log)
     except UnknownSequence as e:
         raise HarnessError("terminal emulator: %s" % e)
+    except NotSimulated as e:
+        raise HarnessError(str(e))
     finally:
         _pi.time, _pi.threading = old_time, old_thr
         sys.settrace(None)
+    if any("is not simulated by the scheduler" in v["detail"] for v in res.violations):
+        raise HarnessError("the code under test uses a threading primitive the scheduler does not model: %s" % res.violations[0]["detail"])
     res.events = log.events
     res.sim_us = clock.us
     return res
@@ -371,6 +375,9 @@ def _auto(sc, res, clock, log):
                         if st[1] == "KeyboardInterrupt":
                             res.probe("keyboard_interrupt_exit")
                             raise KeyboardInterrupt()
+                        if st[1] == "SystemExit":
+                            res.probe("sys_exit_in_body")   # the body calls sys.exit()
+                            raise SystemExit(3)
                         res.probe("exception_exit")
                         raise _BodyError("boom")
                 marks[tag + "_exit_started"] = sched.steps
@@ -378,7 +385,7 @@ def _auto(sc, res, clock, log):
                 sp = [t for t in sched.threads.values() if t.name != "main" and t.state == "sleeping"]
                 if sp:
                     res.probe("exit_while_spinner_sleeps")
-        except (_BodyError, KeyboardInterrupt) as e:
+        except (_BodyError, KeyboardInterrupt, SystemExit) as e:
             raised = e
         except Exception as e:  # the component's own failure: judged below (spurious / replaced)
             raised = e
@@ -407,7 +414,8 @@ def _auto(sc, res, clock, log):
             if want_raise and raised is None:
                 res.violate("exception_propagates", "swallowed", "the body raised %s but the with-statement ended normally" % want_raise)
             elif want_raise and (((want_raise == "KeyboardInterrupt") != isinstance(raised, KeyboardInterrupt))
-                                 or not isinstance(raised, (_BodyError, KeyboardInterrupt))):
+                                 or ((want_raise == "SystemExit") != isinstance(raised, SystemExit))
+                                 or not isinstance(raised, (_BodyError, KeyboardInterrupt, SystemExit))):
                 res.violate("exception_propagates", "replaced", "the body raised %s, the block raised %r" % (want_raise, raised))
             elif not want_raise and raised is not None:
                 res.violate("exception_propagates", "spurious", "the block raised %r" % (raised,))
